@@ -7,6 +7,7 @@
 #include "algorithms/sequential/tbfalgorithm.hpp"
 #include "algorithms/sequential/tbfalgorithmtsm.hpp"
 #include "algorithms/openmp/tbfopenmpalgorithm.hpp"
+#include "algorithms/openmp/tbfopenmpalgorithmtsm.hpp"
 #include "algorithms/periodic/tbfalgorithmperiodictoptree.hpp"
 #include "kernels/P2P/FP2PR.hpp"
 #include <complex>
